@@ -25,6 +25,8 @@ type c15Case struct {
 	After  int            `json:"after"` // sessions established afterwards
 	// DelOther deletes the other session that shares gNB peer and filter right after the target request
 	DelOther bool `json:"delother,omitempty"`
+	// Asym: the downlink PDR of session 0 carries an application filter of its own, which nothing else uses
+	Asym bool `json:"asym,omitempty"`
 }
 
 func c15Session(idx int, peer string, sdf string, twoQ bool) model.Op {
@@ -47,8 +49,16 @@ func c15Session(idx int, peer string, sdf string, twoQ bool) model.Op {
 
 // c15Exclusive checks, over the switch state, that no agent-managed identifier is referenced by two
 // live owners and that every reference resolves to the object its owner asked for.
-func c15Exclusive(run *sim.Runner, d *rig.P4d) error {
+func c15Exclusive(run *sim.Runner, d *rig.P4d, free map[string]map[uint64]bool) error {
 	snap := d.Snap()
+	// (hook) an identifier that an entry of a live session references must not sit in its free pool, from
+	// where the next allocation would hand it to somebody else
+	notFree := func(pool string, id uint64, owner string) error {
+		if free != nil && free[pool][id] {
+			return fmt.Errorf("%s identifier %d is referenced by live %s but sits in the agent's free pool (it can be handed to another session)", pool, id, owner)
+		}
+		return nil
+	}
 	// identifiers whose object was installed at some point: if a live session references one that is
 	// missing now, it was removed (and its id released) while in use
 	everPeer, everApp := map[uint64]bool{}, map[uint64]bool{}
@@ -104,7 +114,13 @@ func c15Exclusive(run *sim.Runner, d *rig.P4d) error {
 				return fmt.Errorf("counter cell %d is referenced by two live owners: %s and %s", ctr, o, owner)
 			}
 			ctrOwner[ctr] = owner
+			if err := notFree("ctr", ctr, owner); err != nil {
+				return err
+			}
 			if cell, ok := e.Params["app_meter_idx"]; ok && cell != 0 {
+				if err := notFree("appmeter", cell, owner); err != nil {
+					return err
+				}
 				if o, dup := appCellOwner[cell]; dup && o != s.Idx {
 					return fmt.Errorf("application meter cell %d is referenced by live sessions %d and %d", cell, o, s.Idx)
 				}
@@ -112,6 +128,9 @@ func c15Exclusive(run *sim.Runner, d *rig.P4d) error {
 			}
 			// the application id must still denote this owner's filter
 			if id := e.Match["app_id"].Value; id != 0 {
+				if err := notFree("app", id, owner); err != nil {
+					return err
+				}
 				ae, ok := appEntry[id]
 				if !ok {
 					if everApp[id] {
@@ -123,7 +142,7 @@ func c15Exclusive(run *sim.Runner, d *rig.P4d) error {
 				}
 				want := ""
 				for _, p := range s.PDRs {
-					if p.SDF != "" {
+					if p.SDF != "" && (p.Src == "access") == (tbl == "terminations_uplink") {
 						want = p.SDF
 					}
 				}
@@ -154,6 +173,9 @@ func c15Exclusive(run *sim.Runner, d *rig.P4d) error {
 				continue
 			}
 			if cell := e.Params["session_meter_idx"]; cell != 0 {
+				if err := notFree("sessmeter", cell, fmt.Sprintf("session %d %s", s.Idx, tbl)); err != nil {
+					return err
+				}
 				if o, dup := sessCellOwner[cell]; dup && o != s.Idx {
 					return fmt.Errorf("session meter cell %d is referenced by live sessions %d and %d", cell, o, s.Idx)
 				}
@@ -169,6 +191,11 @@ func c15Exclusive(run *sim.Runner, d *rig.P4d) error {
 				}
 				if far.HasOHC && far.Action&model.ActFORW != 0 {
 					pe, ok := peerEntry[id]
+					if ok {
+						if err := notFree("tnlpeer", id, fmt.Sprintf("session %d", s.Idx)); err != nil {
+							return err
+						}
+					}
 					if !ok {
 						if everPeer[id] {
 							return fmt.Errorf("session %d references tunnel peer id %d whose tunnel_peers entry was removed while the session is live (id released while in use)", s.Idx, id)
@@ -215,7 +242,11 @@ func runC15(c c15Case, ev *Ev) error {
 	sdfF, sdfG := "permit out udp from 8.8.8.0/24 to assigned", "permit out tcp from 9.9.9.0/24 to assigned"
 	// two sessions with application + session QER that share peer A and filter F
 	for i := 0; i < 2; i++ {
-		if o := run.Exec(c15Session(i, peerA, sdfF, true)); !o.Accepted {
+		op := c15Session(i, peerA, sdfF, true)
+		if c.Asym && i == 0 {
+			op.PDRs[1].SDF = "permit out udp from 6.6.6.0/24 to assigned"
+		}
+		if o := run.Exec(op); !o.Accepted {
 			return fmt.Errorf("INFRA: set-up establishment %d rejected (cause %d)\n%s", i, o.Cause, p4Diag(r, 0))
 		}
 	}
@@ -262,7 +293,7 @@ func runC15(c c15Case, ev *Ev) error {
 	if ev != nil {
 		ev.Extra["writes_"+c.Target] = nWrites
 	}
-	if err := c15Exclusive(run, r.P4); err != nil {
+	if err := c15Exclusive(run, r.P4, r.A.Iface.VerifUP4FreeIDs()); err != nil {
 		return fmt.Errorf("after %s with failing write %d (%s): %w\n%s", c.Target, c.K, c.Code, err, p4Diag(r, from))
 	}
 	if err := c15Pools(r, fmt.Sprintf("after %s with failing write %d (%s)", c.Target, c.K, c.Code)); err != nil {
@@ -272,7 +303,7 @@ func runC15(c c15Case, ev *Ev) error {
 		if od := run.Exec(model.Op{Kind: "del", Peer: 0, Seq: 350, Sess: 1, Note: "any"}); od.NoResp {
 			return fmt.Errorf("deletion of the sharing session: no response")
 		}
-		if err := c15Exclusive(run, r.P4); err != nil {
+		if err := c15Exclusive(run, r.P4, r.A.Iface.VerifUP4FreeIDs()); err != nil {
 			return fmt.Errorf("after %s with failing write %d (%s) and deletion of the session sharing its objects: %w\n%s", c.Target, c.K, c.Code, err, p4Diag(r, from))
 		}
 	}
@@ -287,7 +318,7 @@ func runC15(c c15Case, ev *Ev) error {
 		if oo.NoResp {
 			return fmt.Errorf("follow-up establishment %d: no response", i)
 		}
-		if err := c15Exclusive(run, r.P4); err != nil {
+		if err := c15Exclusive(run, r.P4, r.A.Iface.VerifUP4FreeIDs()); err != nil {
 			return fmt.Errorf("after %s with failing write %d (%s), follow-up session %d (accepted=%v): %w", c.Target, c.K, c.Code, i, oo.Accepted, err)
 		}
 		if err := c15Pools(r, fmt.Sprintf("follow-up session %d after %s/%d/%s", i, c.Target, c.K, c.Code)); err != nil {
@@ -307,20 +338,21 @@ var c15Codes = []string{"UNAVAILABLE", "INVALID_ARGUMENT", "RESOURCE_EXHAUSTED"}
 func TestC15Enum(t *testing.T) {
 	ev := newEv("C15")
 	defer ev.write()
-	ev.Rule = "fault enumeration on a fresh UP4 agent whose switch declares 9-cell meters and 16-cell counters: two sessions (application + session QER, shared gNB and filter), then the target request {establishment (sharing / not sharing peer and filter), Update FAR modification (same / new peer), deletion} with the k-th Write RPC failing, for every k up to the number of Writes of the fault-free run and each code {gRPC UNAVAILABLE, UNKNOWN+INVALID_ARGUMENT, UNKNOWN+RESOURCE_EXHAUSTED}, then 4 (quick) / 7 (thorough) further sessions; non-trivial = the failing write is not the first of the request"
-	ev.Assume = []string{"ALREADY_EXISTS is tolerated by documented design and not injected", "identifier leaks after a failed request are C05's business; C15 asserts exclusivity, no hand-out while in use, no migration (a pool never exceeds its start-up size) and rejection"}
+	ev.Rule = "fault enumeration on a fresh UP4 agent whose switch declares 9-cell meters and 16-cell counters: two sessions (application + session QER, shared gNB and filter; in a third of the scenarios the downlink PDR of the first session has an application filter nothing else uses), then the target request {establishment (sharing / not sharing peer and filter), Update FAR modification (same / new peer), deletion} with the k-th Write RPC failing, for every k up to the number of Writes of the fault-free run and each code {gRPC UNAVAILABLE, UNKNOWN+INVALID_ARGUMENT, UNKNOWN+RESOURCE_EXHAUSTED}, then 4 (quick) / 7 (thorough) further sessions; non-trivial = the failing write is not the first of the request"
+	ev.Assume = []string{"ALREADY_EXISTS is tolerated by documented design and not injected", "identifier leaks after a failed request are C05's business; C15 asserts exclusivity, no hand-out while in use (also in its precursor form, hook: no identifier referenced by an entry of a live session sits in its free pool), no migration (a pool never exceeds its start-up size) and rejection"}
 	codes := c15Codes
 	if !thorough() {
 		codes = c15Codes[:2]
 	}
 	n := 0
 	for _, target := range []string{"est", "mod", "del"} {
-		for _, shared := range []bool{true, false} {
+		for _, variant := range []struct{ shared, asym bool }{{true, false}, {false, false}, {true, true}} {
+			shared, asym := variant.shared, variant.asym
 			if target == "del" && !shared {
 				continue
 			}
 			// fault-free run learns W
-			base := c15Case{Target: target, Shared: shared, After: 1}
+			base := c15Case{Target: target, Shared: shared, After: 1, Asym: asym}
 			probe := newEv("C15")
 			if err := runC15(base, probe); err != nil {
 				failNow(t, ev, "enum", base, err)
@@ -336,14 +368,14 @@ func TestC15Enum(t *testing.T) {
 						continue
 					}
 					for _, delOther := range []bool{false, true} {
-						c := c15Case{Target: target, K: k, Code: code, Shared: shared, After: scale(4, 7), DelOther: delOther}
+						c := c15Case{Target: target, K: k, Code: code, Shared: shared, After: scale(4, 7), DelOther: delOther, Asym: asym}
 						if err := runC15(c, ev); err != nil {
 							failNow(t, ev, "enum", c, err)
 						}
 					}
 				}
 			}
-			ev.Extra[fmt.Sprintf("W_%s_shared=%v", target, shared)] = W
+			ev.Extra[fmt.Sprintf("W_%s_shared=%v_asym=%v", target, shared, asym)] = W
 		}
 	}
 	ev.Exhaust = true
@@ -354,7 +386,7 @@ func TestC15Multi(t *testing.T) {
 	ev := newEv("C15")
 	ev.Rule = "random multi-fault plans (1-3 failing Writes with drawn codes) on the same scenario family"
 	runProp(t, ev, "enum", true, func(rt *rapid.T) c15Case {
-		c := c15Case{Target: rapid.SampledFrom([]string{"est", "mod", "del"}).Draw(rt, "target"), Shared: rapid.Bool().Draw(rt, "shared"), After: rapid.IntRange(2, 6).Draw(rt, "after"), Multi: map[int]string{}, DelOther: rapid.Bool().Draw(rt, "delother")}
+		c := c15Case{Target: rapid.SampledFrom([]string{"est", "mod", "del"}).Draw(rt, "target"), Shared: rapid.Bool().Draw(rt, "shared"), After: rapid.IntRange(2, 6).Draw(rt, "after"), Multi: map[int]string{}, DelOther: rapid.Bool().Draw(rt, "delother"), Asym: rapid.Bool().Draw(rt, "asym")}
 		for i := 0; i < rapid.IntRange(1, 3).Draw(rt, "nf"); i++ {
 			c.Multi[rapid.IntRange(1, 9).Draw(rt, "k")] = rapid.SampledFrom(c15Codes).Draw(rt, "code")
 		}
